@@ -86,9 +86,15 @@ def log_mc(wd):
                 ", ".join(f'[p |-> "{p}", u |-> "{u}", e |-> {e}]' for p, u, e in (RESTS if C.tier() == "quick" else RESTS_T)) + " >>\n====\n")
 
 
+def conv_devs():
+    from . import c04
+    return c04.known_devs()
+
+
 def log_cfg(devs):
     return f"""CONSTANTS
   OneChar = TRUE
+  ConvDevs = {C.tla_str(conv_devs())}
   KnownDevs = {C.tla_str(devs)}
   Emit = TRUE
   LatMax = 20
